@@ -27,6 +27,9 @@ func rulesC12(c *Ctx) {
 	// "no conditions are configured" is a statement about what the user configured: Build installs no default on the
 	// builder's shared condition sets
 	buildCopiesConfig(c)
+	// "hedge cancel conditions … any match cancels": every finished attempt is tested against them
+	c.Rule("hedge-attempt")
+	c09Loop(c)
 }
 
 // ---- C12.isfailure -------------------------------------------------------------------------------------
